@@ -113,18 +113,23 @@ MonStart(m) ==
     /\ hist' = Append(hist, <<"MonStart", m, Parked(pend', chan', txn)>>)
     /\ UNCHANGED <<db, ntxn, txn, cache, deferred, failed>>
 
-\* the writer's transaction begins: changes to the rows of one table. The server
-\* executes it and notifies the (at most one) registered monitor of that table,
-\* then waits for the acknowledgement; with nobody to notify it is ready to commit
-TBegin(tbl, chs) ==
+\* the writer's transaction begins: changes to rows of one table, or of two tables. The server executes it and
+\* notifies the registered monitors of the tables concerned one after the other - each notification carries the
+\* changes of that monitor's table and is acknowledged before the next is sent; with nobody (left) to notify the
+\* transaction is ready to commit
+ConcernedMons(chs) == {m \in registered : \E i \in DOMAIN chs : TableOf[chs[i][1]] = Monitors[m]}
+ChangesFor(m, chs) == SelectSeq(chs, LAMBDA c : TableOf[c[1]] = Monitors[m])
+NotifFor(m, chs) == [kind |-> "upd", mon |-> m, snap |-> [r \in {} |-> 0], changes |-> ChangesFor(m, chs)]
+TBegin(chs) ==
     /\ ~txn.active /\ ntxn < MaxTxns /\ ~failed
     /\ ntxn' = ntxn + 1
-    /\ LET ms == MonOfTable(tbl) \cap registered
+    /\ LET ms == ConcernedMons(chs)
        IN  IF ms = {}
            THEN /\ txn' = [changes |-> chs, toNotify |-> {}, awaitingAck |-> FALSE, atGate |-> TRUE, active |-> TRUE]
                 /\ UNCHANGED chan
-           ELSE /\ txn' = [changes |-> chs, toNotify |-> {}, awaitingAck |-> TRUE, atGate |-> FALSE, active |-> TRUE]
-                /\ chan' = Append(chan, [kind |-> "upd", mon |-> CHOOSE m \in ms : TRUE, snap |-> [r \in {} |-> 0], changes |-> chs])
+           ELSE \E m \in ms :       \* the server walks its monitors in no particular order
+                    /\ txn' = [changes |-> chs, toNotify |-> ms \ {m}, awaitingAck |-> TRUE, atGate |-> FALSE, active |-> TRUE]
+                    /\ chan' = Append(chan, NotifFor(m, chs))
     /\ hist' = Append(hist, <<"TBegin", chs, Parked(pend, chan', txn')>>)
     /\ UNCHANGED <<db, registered, cache, deferU, deferred, pend, replyBuf, failed>>
 
@@ -133,7 +138,7 @@ ReadLoopNotify ==
     /\ chan # <<>> /\ Head(chan).kind = "upd"
     /\ LET n == Head(chan)
            d == Drain(Tail(chan), pend, replyBuf)
-       IN  /\ chan' = d[1] /\ pend' = d[2] /\ replyBuf' = d[3]
+       IN  /\ pend' = d[2] /\ replyBuf' = d[3]
            /\ IF deferU
               THEN /\ deferred' = Append(deferred, n.changes)
                    /\ UNCHANGED <<cache, failed>>
@@ -141,7 +146,13 @@ ReadLoopNotify ==
                    IN  /\ cache' = r[1]
                        /\ failed' = (failed \/ ~r[2])
                        /\ UNCHANGED deferred
-    /\ txn' = [txn EXCEPT !.awaitingAck = FALSE, !.atGate = TRUE]
+           \* the acknowledgement lets the server go on: the next monitor's notification, or the commit
+           /\ IF txn.toNotify = {}
+              THEN /\ txn' = [txn EXCEPT !.awaitingAck = FALSE, !.atGate = TRUE]
+                   /\ chan' = d[1]
+              ELSE \E m \in txn.toNotify :
+                       /\ txn' = [txn EXCEPT !.toNotify = @ \ {m}]
+                       /\ chan' = Append(d[1], NotifFor(m, txn.changes))
     /\ hist' = Append(hist, <<"ReadLoopNotify", 0, Parked(pend', chan', txn')>>)
     /\ UNCHANGED <<db, ntxn, registered, deferU>>
 
@@ -167,19 +178,24 @@ TCommit ==
     /\ hist' = Append(hist, <<"TCommit", 0, Parked(pend, chan, txn')>>)
     /\ UNCHANGED <<ntxn, registered, chan, cache, deferU, deferred, pend, replyBuf, failed>>
 
-\* the changes a transaction may make to the rows of one table, given the
-\* committed state: insert an absent row, modify or delete a present one
+\* the changes a transaction may make, given the committed state: insert an absent row, modify or delete a
+\* present one; one or two rows of one table, or one row each of two tables
+One(r) == IF db[r] = 0 THEN {<<r, 0, ntxn + 1>>} ELSE {<<r, db[r], ntxn + 1>>, <<r, db[r], 0>>}
 ChangesOf(tbl) ==
     LET rs == {r \in Rows : TableOf[r] = tbl}
-        one(r) == IF db[r] = 0 THEN {<<r, 0, ntxn + 1>>} ELSE {<<r, db[r], ntxn + 1>>, <<r, db[r], 0>>}
-    IN  UNION {{<<c>> : c \in one(r)} : r \in rs}
-        \cup UNION {{<<c1, c2>> : c1 \in one(p[1]), c2 \in one(p[2])} : p \in {p \in rs \X rs : p[1] # p[2]}}
+    IN  UNION {{<<c>> : c \in One(r)} : r \in rs}
+        \cup UNION {{<<c1, c2>> : c1 \in One(p[1]), c2 \in One(p[2])} : p \in {p \in rs \X rs : p[1] # p[2]}}
+FirstTable == CHOOSE t \in {TableOf[r] : r \in Rows} : TRUE
+ChangesAcross ==
+    UNION {{<<c1, c2>> : c1 \in One(p[1]), c2 \in One(p[2])}
+             : p \in {p \in Rows \X Rows : TableOf[p[1]] = FirstTable /\ TableOf[p[2]] # FirstTable}}
 
 Tables == {TableOf[r] : r \in Rows}
 
 Next ==
     \/ \E m \in DOMAIN Monitors : MonStart(m) \/ ApplyReply(m)
-    \/ \E tbl \in Tables : \E chs \in ChangesOf(tbl) : TBegin(tbl, chs)
+    \/ \E tbl \in Tables : \E chs \in ChangesOf(tbl) : TBegin(chs)
+    \/ \E chs \in ChangesAcross : TBegin(chs)
     \/ ReadLoopNotify \/ TCommit
 
 Spec == Init /\ [][Next]_vars
